@@ -601,8 +601,8 @@ def check_hdr_persist(rep, mod):
     from storage that survives between calls before the call, and to save them after it."""
     R = rep.rule('R-HDR-PERSIST', 'every call of isal_read_gzip_header / isal_read_zlib_header from a library function on a header object local to that function: either the function sets block_state to '
                  'ISAL_BLOCK_NEW_HDR on every path before the call (one-shot: the reader never resumes), or (a) each resume field of the reader - read through the header parameter before being written on some path '
-                 'from the entry, and written by the reader - and each field the caller reads after the call that the reader leaves unwritten on some path receives, before the call, a value that depends on the '
-                 'inflate state (a load from it, or a store guarded by a test of it), and (b) each resume field is stored into the inflate state after the call: a fresh header per call cannot resume', floor=4,
+                 'from the entry, and written by the reader - and each field the caller reads after the call that the reader leaves unwritten on some path receives, before the call, a value carried from the '
+                 'inflate state (a load from it through casts only, or a store guarded by a test of it), and (b) each resume field is stored verbatim (load, casts) into the inflate state after the call: a fresh header per call cannot resume, and a value that is recomputed on the way is not the reader\'s', floor=4,
                  unit='call sites')
     names = {}
     for st, fl in (('struct isal_gzip_header', GZ_FIELDS), ('struct isal_zlib_header', Z_FIELDS)):
@@ -719,6 +719,15 @@ def check_hdr_persist(rep, mod):
             after = g.reachable_avoiding(c.block, set())
             cidx = g.blocks[c.block].insns.index(c)
 
+            def pure_copy_of(v, pred, depth=0):
+                """v is a load from a location accepted by pred, looked at through integer casts only: the value is carried, not recomputed"""
+                d_ = g.defs.get(v)
+                if d_ is None or depth > 4:
+                    return False
+                if d_.op in ('zext', 'sext', 'trunc', 'bitcast'):
+                    return pure_copy_of(d_.ops[0], pred, depth + 1)
+                return d_.op == 'load' and pred(P.atoms(d_.ops[0]))
+
             def is_after(i):
                 return (i.block == c.block and g.blocks[i.block].insns.index(i) > cidx) or (i.block != c.block and i.block in after)
             need = set(rd['resume'])
@@ -737,8 +746,8 @@ def check_hdr_persist(rep, mod):
                         continue
                     if c.block not in g.reachable_avoiding(i.block, set()):
                         continue
-                    if any(d[0] == 'mem' and d[1][0] == 'param' and d[1][1] == sidx[0] for d in P.deps(i.ops[0])):
-                        okv = True
+                    if pure_copy_of(i.ops[0], lambda at: len(at) == 1 and next(iter(at))[0] == 'param' and next(iter(at))[1] == sidx[0]):
+                        okv = True        # carried verbatim: a load from the inflate state, through casts only
                     elif not g.dominates(i.block, c.block):
                         for pb in g.blocks[i.block].preds:
                             t = g.blocks[pb].insns[-1]
@@ -753,9 +762,9 @@ def check_hdr_persist(rep, mod):
                 for i in g.all_insns():
                     if i.op == 'store' and is_after(i):
                         at = P.atoms(i.ops[1])
-                        if len(at) == 1 and next(iter(at))[0] == 'param' and next(iter(at))[1] == sidx[0] and ('mem', ('alloca', H, o)) in P.deps(i.ops[0]):
+                        if len(at) == 1 and next(iter(at))[0] == 'param' and next(iter(at))[1] == sidx[0] and pure_copy_of(i.ops[0], lambda a_: a_ == {('alloca', H, o)}):
                             saved = True
-                R.check(saved, where, '%s: header field %s is resume state of %s but is not stored into the inflate state after the call' % (gn, nm.get(o, '+%d' % o), c.callee),
+                R.check(saved, where, '%s: header field %s is resume state of %s but is not stored verbatim into the inflate state after the call (a value that is filtered or recomputed on the way - e.g. made to depend on another field that the reader has not filled in yet - is not what the reader needs back)' % (gn, nm.get(o, '+%d' % o), c.callee),
                         key='R-HDR-PERSIST|%s|%s|save|%s' % (gn, c.callee, nm.get(o, o)), sample='%s: %s.%s saved into the inflate state after %s' % (gn, H, nm.get(o, o), c.callee))
     if nsites == 0:
         raise AnalysisBroken('R-HDR-PERSIST: no library function calls a header reader on a header object of its own')
